@@ -10,6 +10,7 @@ pub mod c08;
 pub mod c09;
 pub mod c11;
 pub mod c12;
+pub mod c13;
 pub mod c16;
 pub mod offtrait;
 
@@ -25,6 +26,7 @@ pub fn dispatch(ctx: &mut Ctx) -> bool {
         "C09" => c09::run(ctx),
         "C11" => c11::run(ctx),
         "C12" => c12::run(ctx),
+        "C13" => c13::run(ctx),
         "C16" => c16::run(ctx),
         _ => return false,
     }
